@@ -1285,6 +1285,50 @@ func (x *Exec) modularCall(e *Env, callee *types.Func, c *Contract, args []Value
 		ord = x.nodeOrdOf(x.top(), n)
 	}
 	pre := e.st.fork()
+	// a callee proved once per value of a `specialize NAME = ...` constant: the value for this call is
+	// the one for which the preconditions that mention it hold on this path
+	if len(c.SpecConsts) > 0 {
+		saved := specConstsNow
+		defer func() { specConstsNow = saved }()
+		for name, vals := range c.SpecConsts {
+			if _, bound := saved[name]; bound {
+				continue // the caller is specialised on the same constant
+			}
+			found := false
+			for _, v := range vals {
+				trial := map[string]int64{}
+				for k, w := range specConstsNow {
+					trial[k] = w
+				}
+				trial[name] = v
+				keep := specConstsNow
+				specConstsNow = trial
+				ok := func() (ok bool) {
+					defer func() {
+						if r := recover(); r != nil {
+							ok = false
+						}
+					}()
+					ts := e.st.fork()
+					te := x.contractEnv(&Env{x: x, st: ts, pkg: e.pkg, where: e.where}, c, callee, args, ts.fork())
+					for _, r := range c.Requires {
+						if !x.simplifyWithPC(ts, te.boolTerm(te.expr(r.Expr))).IsTrue() {
+							return false
+						}
+					}
+					return true
+				}()
+				if ok {
+					found = true
+					break
+				}
+				specConstsNow = keep
+			}
+			if !found {
+				unsupported("%s: call of %s: cannot determine the value of its specialisation constant %s on this path", e.where, short, name)
+			}
+		}
+	}
 	ce := x.contractEnv(e, c, callee, args, pre)
 	for i, r := range c.Requires {
 		ce.where = r.Line
